@@ -54,6 +54,16 @@ Definition state_of (p : profile) (st : estate) : Prop :=
   first_place_votes cand ceqb p = inl (escores st) /\
   remaining st = score_to_ranking cand (escores st) true.
 
+
+(* what a round starts from: the initial profile p0 (used to break elimination ties), the current
+   profile p whose candidates are among those of p0, and the state [prev] reporting p's tallies *)
+Record step_ctx (p0 p : profile) (prev : estate) : Prop := {
+  ctx_p0 : wf_stv0 p0;
+  ctx_sub : incl (cands p) (cands p0);
+  ctx_p : wf_stv0 p;
+  ctx_st : state_of p prev
+}.
+
 (* first candidate of a ballot *)
 Definition head_cand (b : ballot) : option cand :=
   match rk b with (c :: _) :: _ => Some c | _ => None end.
@@ -95,5 +105,36 @@ Definition eliminated_in (st : estate) : cset := flat cand (real_groups cand (el
 (* candidates elected / eliminated in any of the states of a list *)
 Definition all_elected (sts : list estate) : cset := concat (map elected_in sts).
 Definition all_eliminated (sts : list estate) : cset := concat (map eliminated_in sts).
+
+(* ---------- the invariant of the count ---------- *)
+
+(* at the time each state was the latest one, the candidates elected so far, the remaining ones
+   and those eliminated so far listed every candidate of the initial profile exactly once
+   (states newest first) *)
+Fixpoint hist_ok (p0 : profile) (sts : list estate) : Prop :=
+  match sts with
+  | [] => True
+  | st :: older =>
+      Permutation (all_elected (st :: older) ++ flat cand (remaining st) ++ all_eliminated (st :: older))
+                  (cands p0)
+      /\ hist_ok p0 older
+  end.
+
+(* [sts] = states so far, newest first; [p] = current profile; [t] = threshold; [N] = initial weight *)
+Record stv_inv (cfg : stv_cfg) (t N : Q) (p0 p : profile) (sts : list estate) : Prop := {
+  (* the newest state reports the tallies of the (valid-or-empty) current profile *)
+  inv_ctx : exists prev older, sts = prev :: older /\ step_ctx p0 p prev;
+  (* partition of the candidates, now and at every earlier round *)
+  inv_hist : hist_ok p0 sts;
+  (* enough candidates are left to fill the seats *)
+  inv_enough : (s_m cfg <= Z.of_nat (length (cands p)) + count_elected cand sts)%Z;
+  (* every candidate elected so far has kept a full threshold of weight (fractional and random
+     transfer), unless a default election has emptied the profile *)
+  inv_weight : s_transfer cfg <> TFullWeight ->
+     (cands p = [] /\ ballots p = []) \/
+     total_wt cand (ballots p) + t * inject_Z (count_elected cand sts) <= N;
+  inv_t_nonneg : 0 <= t;
+  inv_t_int : is_integral t = true
+}.
 
 End WithCand.
